@@ -116,6 +116,24 @@ func VerifMain(args []string) int {
 			}
 			run(genRandomCase(r, mt))
 		}
+	case "multi":
+		for i := 0; i < *n && !fatal; i++ {
+			c := genRandomCase(r, *maxT)
+			var reqs, reps []string
+			_, rep := guarded(func() (string, string) {
+				runMultiCase(r, c, func(a, b string) { reqs = append(reqs, a); reps = append(reps, b) })
+				return "", "done"
+			}, func() string { return "" })
+			for k := range reqs {
+				out.emit(reqs[k], reps[k])
+			}
+			if rep != "done" {
+				out.emit(c.request(newWorld(c).order()), rep)
+				if rep == "timeout" || rep == "blowup heap" {
+					fatal = true
+				}
+			}
+		}
 	case "perm":
 		// accepted programs with permuted and regrouped variants (C10); a variant is only derived
 		// from a base the implementation accepts
